@@ -432,10 +432,10 @@ impl<'a> GeneratorState<'a> {
                             _ => return Err(self.compiler_state.syntax_error("Syntax error", pos)),
                         };
                         // A value that was computed earlier is stored: the flags describe it
-                        // only when nothing else has changed them since (a restored Y, for
-                        // instance)
+                        // only when they are known to, and nothing else has changed them since
+                        // (a restored Y, the end of a called function, for instance)
                         let stale_flags = matches!(right, ExprType::A(_))
-                            && matches!(self.flags, FlagsState::X | FlagsState::Y);
+                            && matches!(self.flags, FlagsState::X | FlagsState::Y | FlagsState::Unknown);
                         let high_byte_flags = high_byte || stale_flags;
                         match left {
                             ExprType::Absolute(a, b, c) => {
